@@ -168,6 +168,11 @@ struct St {
     generation: u64,
 }
 
+// One condition variable for all workers, woken with notify_all at every
+// step. Waking only the chosen worker (one condvar each) and spin-then-block
+// were both measured in this virtual machine and are 5-10x slower: with a
+// single targeted wake-up the other CPUs go idle and every hand-over pays a
+// cross-CPU wake-up from halt.
 struct Global {
     m: Mutex<Option<St>>,
     cv: Condvar,
@@ -652,6 +657,7 @@ pub fn parse_outcome_text(s: &str) -> Outcome {
             "hash" => o.hash = u64::from_str_radix(v, 16).unwrap_or(0),
             "idle_ms" => o.idle_ms = v.parse().unwrap_or(0),
             "reactivated" => o.reactivated = v.parse().unwrap_or(0),
+            "steals_ok" => o.steals_ok = v.parse().unwrap_or(0),
             "c07_window" => o.c07_window = v.parse().unwrap_or(0),
             "premature_zero" => o.premature_zero = v.parse().unwrap_or(0),
             "quit_seen_by_idle" => o.quit_seen_by_idle = v.parse().unwrap_or(0),
